@@ -304,4 +304,62 @@ theorem eigen_equation_scaled {A B As Bs V : Matrix (Fin n) (Fin n) K} {lam : Fi
   congr 1
   field_simp
 
+/-- **A known eigenvector with a simple eigenvalue is the solver's column.**  If `A x = s B x`, `x ≠ 0`, and the
+    eigenvalue `s` occurs in the eigensystem at most at index `j0` (`lam j ≠ s` for every other index), then column
+    `j0` of `V` is a non-zero multiple of `x`.  (With `x = 1`: whenever the trivial eigenvalue is simple, the
+    eigenvector the methods skip IS the constant vector, so the returned columns are orthogonal to it.) -/
+theorem col_of_simple_eigenvalue {A B V : Matrix (Fin n) (Fin n) K} {lam : Fin n → K} (h : GenEigSystem A B V lam)
+    (x : Fin n → K) (s : K) (hx : A.mulVec x = s • B.mulVec x) (hx0 : x ≠ 0) (j0 : Fin n)
+    (hsimple : ∀ j : Fin n, j ≠ j0 → lam j ≠ s) :
+    ∃ κ : K, κ ≠ 0 ∧ ∀ i, V i j0 = κ * x i := by
+  have hVinv : V * (Vᵀ * B) = 1 := mul_eq_one_comm.mp h.orth
+  set c : Fin n → K := (Vᵀ * B).mulVec x with hc
+  have hxV : V.mulVec c = x := by
+    rw [hc, Matrix.mulVec_mulVec, hVinv, Matrix.one_mulVec]
+  -- (lam j - s) c_j = 0
+  have hkey : ∀ j, (lam j - s) * c j = 0 := by
+    have h1 : A.mulVec x = (B * V * Matrix.diagonal lam).mulVec c := by
+      rw [← eigen_equation h, ← Matrix.mulVec_mulVec, hxV]
+    have h2 : s • B.mulVec x = (B * V).mulVec (s • c) := by
+      rw [Matrix.mulVec_smul, ← Matrix.mulVec_mulVec, hxV]
+    have h3 : (B * V).mulVec ((Matrix.diagonal lam).mulVec c) = (B * V).mulVec (s • c) := by
+      rw [Matrix.mulVec_mulVec, ← h1, hx, h2]
+    have h4 : (Matrix.diagonal lam).mulVec c = s • c := by
+      calc (Matrix.diagonal lam).mulVec c
+          = (Vᵀ * B * V).mulVec ((Matrix.diagonal lam).mulVec c) := by rw [h.orth, Matrix.one_mulVec]
+        _ = Vᵀ.mulVec ((B * V).mulVec ((Matrix.diagonal lam).mulVec c)) := by
+            rw [Matrix.mul_assoc]
+            exact (Matrix.mulVec_mulVec ((Matrix.diagonal lam).mulVec c) Vᵀ (B * V)).symm
+        _ = Vᵀ.mulVec ((B * V).mulVec (s • c)) := by rw [h3]
+        _ = (Vᵀ * (B * V)).mulVec (s • c) := Matrix.mulVec_mulVec _ _ _
+        _ = s • c := by rw [← Matrix.mul_assoc, h.orth, Matrix.one_mulVec]
+    intro j
+    have := congrFun h4 j
+    simp only [Matrix.mulVec_diagonal, Pi.smul_apply, smul_eq_mul] at this
+    rw [sub_mul, this, sub_self]
+  have hc0 : ∀ j, j ≠ j0 → c j = 0 := by
+    intro j hj
+    rcases mul_eq_zero.mp (hkey j) with h1 | h1
+    · exact absurd (sub_eq_zero.mp h1) (hsimple j hj)
+    · exact h1
+  have hxi : ∀ i, x i = V i j0 * c j0 := by
+    intro i
+    have := congrFun hxV i
+    rw [Matrix.mulVec, dotProduct, Finset.sum_eq_single j0] at this
+    · exact this.symm
+    · intro b _ hb
+      rw [hc0 b hb, mul_zero]
+    · intro hj
+      exact absurd (Finset.mem_univ j0) hj
+  have hcj : c j0 ≠ 0 := by
+    intro h0
+    apply hx0
+    funext i
+    rw [hxi i, h0, mul_zero]
+    rfl
+  refine ⟨(c j0)⁻¹, inv_ne_zero hcj, ?_⟩
+  intro i
+  rw [hxi i]
+  field_simp
+
 end TapkeeVerif.SpectralLocal
